@@ -185,7 +185,7 @@ re_identifier_dotted       = re.compile(rf'{pat_identifier}(?:\.{pat_identifier}
 re_identifier_dotted_only  = re.compile(rf'^{pat_identifier}(?:\.{pat_identifier})*$')
 re_identifier_or_star      = re.compile(rf'(?:\*|{pat_identifier})')
 re_identifier_or_star_only = re.compile(rf'^(?:\*|{pat_identifier})$')
-re_identifier_alias        = re.compile(rf'(?:\*|{pat_identifier}(?:\.{pat_identifier})*)')
+re_identifier_alias        = re.compile(rf'(?:\*|{pat_identifier}(?:[ \t]*\.[ \t]*{pat_identifier})*)')  # whitespace around the dots is valid source
 re_identifier_alias_only   = re.compile(rf'^(?:\*|{pat_identifier}(?:\.{pat_identifier})*)$')
 
 # Mostly in syntax order except a few special cases:
